@@ -470,7 +470,19 @@ class Evaluator:
                 start_stmt = 0
             for st in stmts:
                 if st[0] == "=":
-                    self.write_place(fr, st[1], self.rvalue(fr, st[2]))
+                    if getattr(self, "lenient", False) and frame is not None and fr is frame:
+                        # region evaluation: a statement that cannot be evaluated (it belongs to unrelated code in the same block)
+                        # leaves its destination unknown; the result is still rejected if a target comes to depend on it
+                        try:
+                            val = self.rvalue(fr, st[2])
+                        except Unsupported:
+                            val = UNKNOWN
+                        try:
+                            self.write_place(fr, st[1], val)
+                        except Unsupported:
+                            fr.env[st[1][0]] = UNKNOWN
+                    else:
+                        self.write_place(fr, st[1], self.rvalue(fr, st[2]))
                     u = getattr(self, "_until", None)
                     if u and u[0] is fr and len(st[1]) == 1 and st[1][0] in u[1]:
                         u[1].discard(st[1][0])
